@@ -87,6 +87,23 @@ def pres_diff(want, got, absent_may_become, ws=False):
     return out
 
 
+def diff_key(d):
+    """(entry name, field) a difference reported by pres_diff is about; structural ones have the name ''"""
+    if d.startswith("summary "):
+        return "", "summary"
+    if d.startswith("parameter names/order"):
+        return "", "order"
+    if d.startswith("return entry invented"):
+        return "", "invented"
+    if d.startswith("return entry lost"):
+        return "", "lost"
+    name, _, rest = d.partition(": ")
+    for f in ("typ", "prose", "default", "absent default"):
+        if rest.startswith(f):
+            return name, f.split()[0]
+    return name, "?"
+
+
 def _dotted_first(code):
     """a '.' not followed by a digit occurs before any bracket (extract_default cuts the value there)"""
     inner = code[3:-3]
@@ -289,30 +306,80 @@ class AstKindProp(Prop):
         fails += self.extra_checks(c, ir, art, back)
         return fails
 
-    # finding classes shared by the AST kinds
-    def classify(self, c, fl):
+    # finding classes shared by the AST kinds. Every class explains differences of NAMED entries only (and the
+    # structural differences listed with it); a failure is excused when each of its differences is explained.
+    scoped_excuses = False
+
+    # fields of the named entry a finding explains (measured on the unchanged tree, tools/field_stats)
+    FIELDS = {
+        "AST-untyped-entry": {"typ", "absent", "default"},
+        "AST-entry-without-prose": {"typ"},
+        "AST-empty-or-dotted-string-default": {"default", "prose", "typ"},
+        "C17-D9-prose-mentions-defaults": {"default", "prose"},
+        "C18-D20-wrapped-type-line-keeps-the-line-break": {"typ", "prose"},
+        "C18-D20-wrapping-changes-content": {"prose"},
+    }
+    # exceptions a finding explains when the round trip raises
+    RAISES = {
+        "AST-code-default": {"SyntaxError", "TypeError", "ValueError", "AttributeError"},
+        "AST-untyped-entry": {"ValueError", "AttributeError"},
+        "C02-dict-typed-attribute": {"TypeError"},
+    }
+
+    def explain(self, c):
+        """-> [(finding id, {entry name: fields it explains there | None = all}, structural keys it explains)]"""
         ir = c["ir"]
+        out = []
         kinds_here = c.get("chain") or [self.kind_of(c)]
+        ents = _entries(ir)
+        inline = bool(c.get("opts", {}).get("inline_types", c.get("inline", True)))
+        F = self.FIELDS
         if any(untyped_breaks(k, ir) for k in kinds_here):
-            return "AST-untyped-entry"
-        if any(prose_less_breaks(k, ir, bool(c.get("opts", {}).get("inline_types", c.get("inline", True)))) for k in kinds_here):
-            return "AST-entry-without-prose"
-        entries = [p for _, p in ir["params"]] + ([ir["returns"]] if ir["returns"] else [])
-        for idx, p in enumerate(entries):
+            out.append(("AST-untyped-entry", {n: F["AST-untyped-entry"] for n, p, _ in ents if "typ" not in p}, set()))
+        if any(prose_less_breaks(k, ir, inline) for k in kinds_here):
+            out.append(("AST-entry-without-prose", {n: F["AST-entry-without-prose"] for n, p, _ in ents if "doc" not in p},
+                        {"order"} | ({"lost"} if any(r and "doc" not in p for _, p, r in ents) else set())))  # fmt: skip
+        for n, p, is_ret in ents:
             d = p.get("default")
-            is_ret = ir["returns"] is not None and idx == len(entries) - 1
             if is_code(d) and self.code_breaks(c, is_ret, p.get("typ"), d["v"]):
-                return "AST-code-default"
+                out.append(("AST-code-default", {n: {"default", "typ"} | ({"prose"} if _dotted_first(d["v"]) else set())}, set()))
             if d is not None and d["t"] == "str" and (d["v"] == "" or _dotted_first("```" + d["v"] + "```")):
-                return "AST-empty-or-dotted-string-default"
+                out.append(("AST-empty-or-dotted-string-default", {n: F["AST-empty-or-dotted-string-default"]}, set()))
             if d is not None and "efaults" in (p.get("doc") or "") and not G.has_own_default_sentence(p):
-                return "C17-D9-prose-mentions-defaults"
-        k = self.classify_kind(c, fl)
-        if k:
-            return k
+                out.append(("C17-D9-prose-mentions-defaults", {n: F["C17-D9-prose-mentions-defaults"]}, set()))
+        out += self.explain_kind(c)
         if c.get("opts", {}).get("word_wrap") and self.kind_of(c) in ("function", "method") and not c["opts"].get("inline_types") and _long_type(ir):
-            return "C18-D20-wrapped-type-line-keeps-the-line-break"
-        return None
+            out.append(("C18-D20-wrapped-type-line-keeps-the-line-break",
+                        {n: F["C18-D20-wrapped-type-line-keeps-the-line-break"] for n, p, _ in ents if len(p.get("typ") or "") + len(n) + 24 > 100}, set()))  # fmt: skip
+        return out
+
+    def explain_kind(self, c):
+        k = self.classify_kind(c, {})
+        return [(k, None, {"order", "summary", "lost", "invented"})] if k else []
+
+    def classify(self, c, fl):
+        ex = self.explain(c)
+        if not ex:
+            return None
+        if not self.scoped_excuses or not isinstance(fl, dict) or not fl.get("what"):
+            return ex[0][0]
+        if fl.get("what") == "round trip raised":
+            return next((cid for cid, _, _ in ex if fl.get("exc") in self.RAISES.get(cid, ())), None)
+        diffs = fl.get("diffs")
+        if diffs is None:
+            return ex[0][0]
+        first = None
+        for d in diffs:
+            name, field = diff_key(d)
+            hit = None
+            for cid, names, keys in ex:
+                if field in keys or (name != "" and (names is None or (name in names and (names[name] is None or field in names[name])))):
+                    hit = cid
+                    break
+            if hit is None:
+                return None
+            first = first or hit
+        return first
 
     def classify_kind(self, c, fl):
         return None
@@ -340,6 +407,7 @@ class C02(AstKindProp):
     id = "C02"
     kind = "class"
     model_kind = "class"
+    scoped_excuses = True
 
     def classify_kind(self, c, fl):
         for _, p in c["ir"]["params"] + ([["r", c["ir"]["returns"]]] if c["ir"]["returns"] else []):
@@ -347,11 +415,28 @@ class C02(AstKindProp):
                 return "C02-dict-typed-attribute"
         return None
 
+    def explain_kind(self, c):
+        names = {n: {"absent", "default"} for n, p, _ in _entries(c["ir"]) if p.get("typ") == "dict"}
+        return [("C02-dict-typed-attribute", names, set())] if names else []
+
 
 class C03(AstKindProp):
     id = "C03"
     kind = "function"
     model_kind = "function"
+    scoped_excuses = True
+
+    def explain_kind(self, c):
+        ir = c["ir"]
+        out = []
+        if c["opts"].get("inline_types"):
+            names = {n: {"typ"} for n, p in ir["params"] if p.get("default") is not None and p["default"]["t"] != "none" and p.get("typ") not in ("int", "float", "str", "bool")}
+            if names:
+                out.append(("C03-D27-inline-type-replaced-by-type-of-default", names, set()))
+        r = ir["returns"]
+        if r is not None and "default" in r:
+            out.append(("C03-return-default", {"return_type": {"default", "typ"}}, {"lost"}))
+        return out
 
     def gen_opts(self, r):
         o = super().gen_opts(r)
@@ -428,6 +513,32 @@ class C04(AstKindProp):
         if typ and typ.startswith("Literal["):
             return [""]
         return []
+
+    scoped_excuses = True
+
+    def explain_kind(self, c):
+        ir = c["ir"]
+        out = []
+        if ir["returns"] is not None:
+            out.append(("C04-return-entry", {"return_type": {"default"}}, {"lost"}))
+            if c.get("opts", {}).get("word_wrap") and len(ir["returns"].get("doc") or "") > 60:
+                # only the first line of a wrapped return description is read back
+                out.append(("C18-D20-wrapping-changes-content", {"return_type": {"prose"}}, set()))
+        for n, p in ir["params"]:
+            k = C04.classify_kind(self, {"ir": dict(ir, params=[(n, p)], returns=None), "opts": c.get("opts", {})}, {})
+            if k:
+                out.append((k, {n: C04.KIND_FIELDS.get(k)}, set()))
+        return out
+
+    KIND_FIELDS = {
+        "C04-D28-bool-without-default-becomes-optional": {"typ"},
+        "C04-single-choice-literal": {"typ"},
+        "C04-non-string-literal": {"typ", "default"},
+        "C04-list-with-explicit-default": {"default", "typ"},
+        "C04-scalar-with-none-default": {"default"},
+        "C04-inexpressible-type": {"typ", "absent", "default"},
+        "C04-kwargs-dict": {"typ", "default", "absent"},
+    }
 
     def classify_kind(self, c, fl):
         ir = c["ir"]
